@@ -154,7 +154,7 @@ int read_task_txt_file(struct uftrace_session_link *sess, char *dirname, char *s
 			create_task(sess, &tmsg, true);
 		}
 		else if (!strncmp(line, "SESS", 4)) {
-			num = sscanf(line + 5, "timestamp=%lu.%lu %*[^i]id=%d sid=%s", &sec, &nsec,
+			num = sscanf(line + 5, "timestamp=%lu.%lu %*[^i]id=%d sid=%16s", &sec, &nsec,
 				     &smsg.task.pid, (char *)&smsg.sid);
 			if (num != 4)
 				goto out;
@@ -185,7 +185,7 @@ int read_task_txt_file(struct uftrace_session_link *sess, char *dirname, char *s
 			if (!needs_symtab)
 				continue;
 
-			num = sscanf(line + 5, "timestamp=%lu.%lu tid=%d sid=%s base=%" PRIx64,
+			num = sscanf(line + 5, "timestamp=%lu.%lu tid=%d sid=%16s base=%" PRIx64,
 				     &sec, &nsec, &dlop.task.tid, (char *)&dlop.sid,
 				     &dlop.base_addr);
 			if (num != 5)
